@@ -289,14 +289,14 @@ def hutchens1_unit():
         ps = extract.run_solver(cls, {'k': k_, 'cp': cp, 'rho': rho, 'Tb': Tb, 'T0': T0, 'Nsum': N, 'b': b}, r, t, hyps=[r <= b])
     except Unsupported as u:
         O.append(core.Obl(base + '/extraction', 'open', 'extraction', 0.0, detail=str(u))); return res
-    al = k_ / (rho * cp)
+    al = k_ / (rho * cp); r0_value = None; nz = None; r0_uses_series = False; r0_tag = base
     for i, p in enumerate([q for q in ps if q.outcome == 'return']):
         sums = getattr(p.run, 'sums', []); tag = '%s/path%d' % (base, i); h = [r <= b] + list(p.pc)
         Tf = sp.sympify(p.value.field('temperature'))
         if any(c == sp.Eq(r, 0) for c in p.pc):
             # value at the coordinate singularity: limit of the series as r -> 0 is term-wise (sin(z)/z -> 1): -1 stands for sum (-1)^n 2 exp(...) only at t -> 0+ ... checked as stated in the property
             nn = sp.Symbol('n_idx0', integer=True, nonnegative=True)
-            O.append(core.structural(tag + '/r=0:value_independent_of_series', not any(Tf.has(s_['symbol']) for s_ in sums), goal='(information) the value returned at r=0 does not use the series'))
+            r0_value = Tf; r0_uses_series = any(Tf.has(s_['symbol']) for s_ in sums); r0_tag = tag
             continue
         if len(sums) != 1: O.append(core.Obl(tag + '/sum_schema', 'open', 'extraction', 0.0, detail='%d accumulations' % len(sums))); continue
         term = sp.sympify(sums[0]['term']); S_ = sums[0]['symbol']
@@ -305,8 +305,33 @@ def hutchens1_unit():
         O.append(core.prove_zero(tag + '/term:pde', sp.diff(full_term, t) - al * (sp.diff(full_term, r, 2) + 2 * sp.diff(full_term, r) / r), h + [r > 0], goal_text='d/dt term == alpha (d2/dr2 + (2/r) d/dr) term, alpha = k/(rho cp)'))
         O.append(core.prove_zero(tag + '/term:bc_r=b', full_term.subs(r, b), h, goal_text='every term vanishes at r = b, so T(b,t) = static part'))
         O.append(core.prove_zero(tag + '/static:T(b)=Tb', static - Tb, h, goal_text='static part == Tb (boundary value and steady state)'))
+        nz = (full_term, static)
+    # the centre r = 0: the value returned there must be the limit of the series (term-wise sin(z)/z -> 1), for every t > 0
+    try:
+        if r0_value is not None and nz is not None:
+            lim = sp.limit(nz[0], r, 0)
+            ok = r0_uses_series and sp.simplify(lim) != 0
+            O.append(core.structural(r0_tag + '/r=0:value_is_limit_of_series', bool(ok), 'term-wise limit of the series at r -> 0: %s ; value returned at r = 0: %s (%s)' % (core.short(lim, 120), core.short(r0_value, 60), 'uses the series' if r0_uses_series else 'does not use the series'),
+                                     H1_CENTRE_NATIVE, 'path-analysis', 'T(0, t) == lim_{r->0} T(r, t) for t > 0: the value at the centre is given by the series with sin(k r)/(k r) -> 1'))
+    except NameError:
+        pass
     for o in O: o.pop('cex_raw', None)
     return res
+
+
+H1_CENTRE_NATIVE = r"""
+import json, io, contextlib, warnings
+import numpy as np
+warnings.simplefilter('ignore')
+from exactpack.solvers.heat import Hutchens1
+with contextlib.redirect_stdout(io.StringIO()): s = Hutchens1()
+out = {}
+for t0 in (0.1, 1.0, 3.0):
+    with contextlib.redirect_stdout(io.StringIO()): v = s(np.array([0.0, 1e-6, 1e-3]), t0)['temperature']
+    out['t=%s: T(0), T(1e-6), T(1e-3)' % t0] = [float(q) for q in v]
+bad = any(abs(v[0] - v[1]) > 1e-3 * max(abs(v[1]), 1e-9) for v in out.values())
+print(json.dumps(dict(out, reproduced=bool(bad))))
+"""
 
 
 ROBIN_NATIVE = r"""
